@@ -15,6 +15,20 @@ CONFIG = dict(
              '(thorough about 1 000), up to 16 live branches, a 10^4-line file (thorough 10^5) edited at head and tail, matrices of hundreds to 1 800 rows, '
              'hibernation distance 0 / 1 / 2 / 3..4; linscale / linopt = linear arbitrary-edit histories in delta form, 1 000 steps (thorough 10 000) resp. 5..44 steps: '
              'files that become binary and text again, renames, deletions, a 10^4-line file of repeated lines, commit times going backwards (tick = running maximum). '
+             'Round-3 streams: lincombo = EVERY pair (op1 in commit 1, op2 in commit 2) of compound operations on one file of a linear history that starts as text, binary or empty - '
+             'a commit may at once rename the file, edit it (lightly: RenameAnalysis still pairs the blobs; heavily: it does not), and flip it text -> binary, binary -> text, -> empty, empty -> text, '
+             'or delete it, or re-create a deleted path as text / binary / empty - followed by 1..2 probing commits (558 histories); lincombo-rnd = 300 (thorough 6 000) random linear histories of 4..14 commits '
+             'over five names with several such operations per commit, name swaps, a new file on the name a renamed / deleted file had in the same commit, copies of an existing blob (two changes of one '
+             'commit meeting in one hash) and commits that remove every file; linscale / linopt also rename + flip + edit in one step and create empty files; '
+             'reuse (a sixth of ALL cases): the BurndownAnalysis instance has first analysed another repository (rename, deletion and re-creation on a branch, a binary flip, three authors, other options) in another pipeline, '
+             'in half of them a repository on which that earlier analysis panics (only a binary file), so the instance is re-used after a failure. '
+             '*-pathdel kinds (the only DAG kinds in which a path is deleted, re-created or renamed; 490 quick / 7 900 thorough): conflict-free DAG histories over file identities with path events '
+             '(a one-parent commit deletes a file killing all its lines, a later commit re-creates the path as a new file, a commit renames a file without changing it; nobody touches a file concurrently with '
+             'one of its events, so every merge is still the clean union of its parents) - shape-recreate / shape-rename / shape-control (the two reported shapes and the plain deletion) and random DAGs '
+             'dag-pathdel (deletions, re-creations) and dagren-pathdel (also renames); judged by the same line-lifetime ground truth (project matrix, developer matrices, last row, per-file tables of the files without events); '
+             'the Gallina analysis model is stepped on every case without a rename (Burndown/PathDel.v run_hist_pd) and must agree with the implementation. '
+             'A PROPFAIL of such a case carries the marker [path-deleted-on-a-branch] exactly when the EXECUTED plan replays, in merge mode, the deletion of a path whose flag deletions[name] is not set at that moment '
+             '(known finding F22; the driver simulates the flag along the plan) - any other failure of a pathdel case is reported without the marker. '
              'Large cases (field scale) are judged by the ground truth computed natively by the driver (difference arrays; the same definitions as Lifetimes.v / Linear.v), '
              'which every small case of the run checks against the extracted oracle; the analysis model is stepped on the opt family but not on the 10^3-commit cases. '
              'Non-trivial = at least 3 commits and (conflict-free kinds) at least one killed line; distinct = distinct '
@@ -33,6 +47,8 @@ CONFIG = dict(
             'C19 (ticks) and C16 (identities): the tick of a commit is its day offset from the first commit, the author index is the '
             'people-dictionary index; both are read from the generated history (ticks) and the recorded dictionary (authors)',
             'ticks < 16383 (TreeMergeMark) and at most 2^18 - 3 developers: the packed (author, tick) value of burndown.go is injective there',
+            'no path deletion and no rename on a DAG: in a conflict_free history (Burndown/Lifetimes.v) a path that exists in a commit exists in every descendant '
+            '(C01_domain_paths_never_disappear); with path deletions admitted the matrix statement is refuted (C01_matrix_refuted_with_path_deletion, known finding F22)',
         ],
         trusted_base=[
             'hand-written Gallina models coq/theories/Burndown/{Dense,Analysis,Replay}.v of leaves/burndown.go (groupSparseHistory, Consume, '
@@ -43,6 +59,8 @@ CONFIG = dict(
             'go-git in-memory repositories built by harness/synth (blobs "L<id>\\n" per line identity)',
             'large cases (10^3..10^4 commits, matrices of hundreds of rows, 10^3..10^4-step linear histories): conflict_free, single_head, last_event, truth_project/file/dev, lines_at_head, ownership and the '
             'linear row-sum law are evaluated by native OCaml code on arrays in the driver (the extracted oracle is cubic); on every small case both are computed and a difference is reported as a driver failure',
+            'kinds *-pathdel: the domain conditions D1-D3 (harness/cmd/c01/pathdel.go) are checked natively by the driver (npd_ok) and, for histories without renames, by the extracted conflict_free_pd; '
+            'the marker of F22 is decided by a native simulation of the deletions flag along the executed plan (nflag_unset_hit); renames are not in the Gallina model: rename cases are judged by the ground truth only',
             'linear scale histories: the tick of a commit is computed by the harness as the running maximum of the day offset from the first commit (the formula of TicksSinceStart; property C19)',
         ],
         level_text='Proved in Coq (all closed under the global context): C01_dense (groupSparseHistory: every cell of the dense matrix = sum of '
@@ -56,7 +74,11 @@ CONFIG = dict(
                    'line\'s author), C01_ownership (per developer the lines of the file alive at HEAD, single head), C01_finalize (all of it '
                    'for what Finalize returns; Finalize succeeds on the domain and returns exactly one per-file matrix / ownership table per '
                    'path with a line and one matrix per developer), and the corollaries (no negative cell, last row = lines at HEAD) for the '
-                   'project, every file and every developer.',
+                   'project, every file and every developer. DOMAIN: conflict_free histories cannot delete or rename a path (C01_domain_paths_never_disappear: a path that '
+                   'exists in a commit exists in every descendant), so all of the above covers DAG histories WITHOUT path deletion or rename on a branch. With path deletions '
+                   'admitted (conflict_free_pd of Burndown/PathDel.v: a file is deleted by a one-parent commit that kills all its lines, nobody touches it concurrently, the path may be '
+                   're-created; every merge still the clean union of its parents) the statement of C01_matrix is REFUTED of the model and of the code: C01_matrix_refuted_with_path_deletion '
+                   '(witness R {f: 3 lines, h: 1}; A deletes f; B edits h; A2 re-creates f; M = merge(A, B); M2 = merge(M, A2): rows [1 0 0] [-2 1 0] [-2 1 2] instead of [4 0 0] [1 1 0] [1 1 2]; known finding F22).',
         level_note='Closed (no axioms): C01_dense (+ refutation of the pre-fix row allocation); oracle facts; C01_linear; C01_global_sparse '
                    '(conflict-free history + any plan accepted by plan_okb, merges included: the sparse global history is births minus deaths '
                    'at the right (tick, birth tick), merge commits counted once); C01_matrix (the dense project matrix equals the ground-truth '
@@ -72,7 +94,12 @@ CONFIG = dict(
                    'File.Merge, the planner, tree/file diffs, hibernation, ticks and identities enter as the hypotheses listed under '
                    'assumptions (C03, C07, C02, C11/C20, C09, C19/C16); the model is tied to burndown.go by replay, not by proof. '
                    'conflict_free contains two redundant executable conjuncts (ticks monotone along ancestry, killer tick >= birth tick) '
-                   'that are checked instead of derived. Known finding F11 (empty-history panic when no text line is ever analysed).',
+                   'that are checked instead of derived. Known finding F11 (empty-history panic when no text line is ever analysed). '
+                   'DOMAIN OF THE DAG THEOREMS: conflict_free implies that paths never disappear (C01_domain_paths_never_disappear) and the model has no rename; C01_global_sparse, C01_matrix, C01_files, '
+                   'C01_people, C01_ownership, C01_finalize and their corollaries therefore say nothing about histories in which a branch deletes, re-creates or renames a path (handle_deletion is never executed '
+                   'in their proofs). For exactly those histories the statement is refuted: C01_matrix_refuted_with_path_deletion (closed by vm_compute on the same model, extended by the replay of '
+                   'Burndown/PathDel.v; the Go code returns the same matrix: known finding F22, handleDeletion books a merge-mode deletion a second time at tick 0 when deletions[name] is not set). '
+                   'Linear histories with renames, deletions, re-creations and binary flips are covered by C01_linear (row sums, non-negativity).',
         technique='machine-checked proof in Coq over a Gallina model of BurndownAnalysis + replay of the real pipeline on synthetic '
                   'repositories: every matrix cell against the extracted ground truth (PROPFAIL), sparse histories / dense result / final '
                   'files against the extracted model run along the executed plan (MISMATCH)',
